@@ -337,6 +337,8 @@ def _enc(v):
         e = v.e
         if c.branch(z3.And(e >= W.IMM_LO, e < W.IMM_HI), "ref-imm"):
             return [Field(1, e + W.IMM_BIAS)]
+        from engine.models import digits_axioms
+        c.add_fact(digits_axioms(e))
         n = DIGITS(e)
         if c.branch(n < 256, "ref-int-l1"):
             return [_tag(W.T_INT_L1), Field(1, n), ("digits", e)]
